@@ -118,6 +118,13 @@ async def service(w, tid, nid):
         yield n
 
 
+@stackscope.unwrap_context_generator.register(service.__wrapped__)
+def _service_ucg(frame, context):
+    """a do-nothing hook, as pytest-trio's glue has one for its fixture manager: while the task is blocked in the
+    manager's __aexit__ the contextlib glue then RE-ENTERS extract_outermost in the middle of the extraction"""
+    return None
+
+
 async def open_acm(w, tid, nid):
     async with service(w, tid, nid):
         await interp(w, tid)
